@@ -202,13 +202,8 @@ impl MT104 {
                 }
                 _ => {
                     // Unknown variant, try both
-                    if let Ok(ip) =
-                        parser.parse_optional_variant_field::<Field50InstructingParty>("50")
-                    {
-                        instructing_party = ip;
-                    } else {
-                        creditor = parser.parse_optional_variant_field::<Field50Creditor>("50")?;
-                    }
+                    instructing_party =
+                        parser.parse_optional_variant_field::<Field50InstructingParty>("50")?;
                 }
             }
         }
@@ -250,14 +245,8 @@ impl MT104 {
                     }
                     _ => {
                         // Unknown variant, try both
-                        if let Ok(ip) =
-                            parser.parse_optional_variant_field::<Field50InstructingParty>("50")
-                        {
-                            instructing_party_tx = ip;
-                        } else {
-                            creditor_tx =
-                                parser.parse_optional_variant_field::<Field50Creditor>("50")?;
-                        }
+                        instructing_party_tx = parser
+                            .parse_optional_variant_field::<Field50InstructingParty>("50")?;
                     }
                 }
             }
